@@ -432,3 +432,34 @@ theorem C15_restart_fault_mislabels :
     (s.restart (.exit (.completeStop 9)) false 5).2 = .markedFailed ∧
     (s.restart (.exit (.completeStop 9)) false 5).1.row.map (fun r => (r.status, r.error, r.result)) =
       some (.failed, some (.store 5), none) := by decide
+
+/-! ## cancel through the service -/
+
+/-- when `cancel_handler` answers `cancelled` for a handler that was still running, the row says `cancelled` -/
+def C15_cancel_reflected_statement : Prop :=
+  ∀ (s : St) (r : Rec) (inMemory : Bool), s.row = some r → r.status = .running → s.failUhs = 0 → s.failApp = 0 →
+    (s.cancelHandler false inMemory).2 = .cancelled →
+    (s.cancelHandler false inMemory).1.row.map (·.status) = some .cancelled
+
+/-- A handler that went idle and was released from memory: `cancel_handler` answers `cancelled`, nothing is
+cancelled, the row keeps saying `running` (and the next `send_event` would reload and continue the run). -/
+theorem C15_cancel_reflected_refuted : ¬ C15_cancel_reflected_statement := by
+  intro h
+  have := h ((C15.started 1).writeEvent 1 { kind := .idle } false).1 _ false rfl (by decide) (by decide) (by decide) (by decide)
+  revert this
+  decide
+
+/-- for a run that is in memory the answer is honest (store faults within the retry budget) -/
+theorem C15_cancel_reflected_partial (s : St) (r : Rec) (hrow : s.row = some r) (hst : r.status = .running)
+    (hb : s.failUhs ≤ s.backoff.length) (happ : s.failApp = 0) :
+    (s.cancelHandler false true).2 = .cancelled ∧
+    ∃ r1, (s.cancelHandler false true).1.row = some r1 ∧ r1.runId = r.runId ∧ r1.status = .cancelled ∧
+      r1.completedAt.isSome = true := by
+  have hnt : r.status.isTerminal = false := by rw [hst]; decide
+  obtain ⟨_, r0, nw, h0, _, h2, _⟩ := writeEvent_terminal s r.runId { kind := .cancelled } .cancelled none none
+    (statusArgs_cancelled 0) ⟨r, hrow, rfl, hst⟩ hb happ
+  rw [hrow] at h0; cases h0
+  have hc : s.cancelHandler false true = ((s.writeEvent r.runId { kind := .cancelled } false).1, .cancelled) := by
+    simp [St.cancelHandler, hrow, hnt]
+  rw [hc]
+  exact ⟨rfl, _, h2, by simp [Rec.apply], by simp [Rec.apply], by simp [Rec.apply, stamps_cancelled]⟩
